@@ -221,6 +221,9 @@ type Auth struct {
 	Scheme  string
 	Outcome func(req int, r *http.Request, scopes []string) AuthOutcome
 	OnCall  func() // scheduling point (K2) — may be nil
+	// ScopedOnly: the scheme only understands the scoped form of the request (*security.ScopedAuthRequest), as the
+	// library's own OAuth2 authenticators do
+	ScopedOnly bool
 }
 
 func (a *Auth) Authenticate(params any) (bool, any, error) {
@@ -230,6 +233,9 @@ func (a *Auth) Authenticate(params any) (bool, any, error) {
 	case *security.ScopedAuthRequest:
 		r, scopes = p.Request, p.RequiredScopes
 	case *http.Request:
+		if a.ScopedOnly {
+			return false, nil, nil // like security.ScopedAuthenticator: a bare request is not for this kind of scheme
+		}
 		r = p
 	default:
 		return false, nil, nil
